@@ -126,6 +126,12 @@ fn v_dec<T: Message + Default + Clone + Glue>(s: &Arc<Schema>, i: usize, input: 
     let (res, alloc, dt) = crate::measured(|| T::decode(buf));
     crate::check_bounded(o, "decode", input.len(), alloc, dt);
     let emitted = res.map(|t| (to_dyn(&t, s), 0));
+    // the same bytes through a buffer that hands them out in small chunks (a chained / non-contiguous `Buf`)
+    for k in [1usize, 7] {
+        let alt = T::decode(crate::shared::rtverbs::Chunked { data: &input, pos: 0, k }).map(|t| to_dyn(&t, s));
+        let same = match (&emitted, &alt) { (Ok((a, _)), Ok(b)) => m_same(a, b), (Err(_), Err(_)) => true, _ => false };
+        if !same { o.fail("C05,C06,C10,C18", format!("decode through {}-byte chunks gives {:?}, from one contiguous buffer {:?}", k, alt.as_ref().map(m_sexp).map_err(|e| e.to_string()), emitted.as_ref().map(|x| m_sexp(&x.0)).map_err(|e| e.to_string()))); }
+    }
     let dynamic = DynMsg::decode_dyn(s, i, false, Bytes::from(input)).map(|m| (m, 0));
     finish(false, s, emitted, dynamic, o)
 }
@@ -199,7 +205,7 @@ fn v_leak<T: Message + Default + Clone + Glue>(input: Vec<u8>, o: &mut Oracle) -
 }
 
 pub fn exec(verb: &str, items: &[Sexp], o: &mut Oracle) -> Option<String> {
-    if !matches!(verb, "pbeenc" | "pbedec" | "pbemrg" | "pbedld" | "pbecat" | "pbespecchk" | "pbeleak") { return None; }
+    if !matches!(verb, "pbeenc" | "pbedec" | "pbemrg" | "pbedld" | "pbecat" | "pbespecchk" | "pbedup" | "pbeleak") { return None; }
     let a = |i: usize| items.get(i).and_then(|x| x.atom());
     let bad = || Some("bad-request".to_string());
     let tb = table();
@@ -226,6 +232,16 @@ pub fn exec(verb: &str, items: &[Sexp], o: &mut Oracle) -> Option<String> {
                 other => o.fail("C06", format!("the reference decoder reads the emitted encoding {} as {}", hex(&enc), other.as_ref().map(m_sexp).unwrap_or("err".into()))),
             }
             match ans.strip_prefix("ok ") { Some(rest) => format!("ok 1 {}", rest), None => format!("ok 1 {}", ans) }
+        }
+        "pbedup" => {
+            // pbedup <type> <pschema> <i> <msg> <hex>: hex = records overridden by a conforming encoding of msg that follows them
+            use crate::shared::refcodec::pschema_of_sexp;
+            let (Some(ps), Some(ri)) = (items.get(2).and_then(pschema_of_sexp), a(3).and_then(|x| x.parse::<usize>().ok())) else { return bad() };
+            if ps != **s || ri != e.idx { return bad() }
+            let (Some(m), Some(input)) = (items.get(4).and_then(|x| m_of_sexp(s, e.idx, false, x)), a(5).and_then(unhex)) else { return bad() };
+            let ans = (e.ops.dec)(s, e.idx, input, o);
+            if ans != format!("ok {}", m_sexp(&m)) { o.fail("C06,C18", format!("a valid encoding whose later records override earlier ones (same map key / same singular field) decodes to {}", ans)); }
+            ans
         }
         "pbeenc" | "pbecat" => {
             if a(2) != Some(flag_name()) { return Some("bad-flag".into()) }
